@@ -165,6 +165,21 @@ func (ex *Exec) call(v ssa.Value, cc *ssa.CallCommon, instr ssa.Instruction) {
 
 func (ex *Exec) dispatch(v ssa.Value, cc *ssa.CallCommon, instr ssa.Instruction, name string, args []TV) {
 	vc := ex.vc
+	if ge := vc.ctx.guardExpr; ge != "" && ex.pass == 2 {
+		worldish := false
+		if cal := cc.StaticCallee(); cal != nil && (deniedPrimitive(cal) || vc.ctx.worldReach[cal]) {
+			worldish = true
+		}
+		if worldish {
+			t, err := vc.entryEnv.Bool(ge)
+			if err != nil {
+				vc.ctx.contractErrors = append(vc.ctx.contractErrors, "effects guarded "+vc.fnName()+": "+err.Error())
+			} else {
+				sn := vc.snippetAt(instr.Pos(), isCallExpr)
+				ex.oblig("effect.guard", "", sn, instr.Pos(), fmt.Sprintf("(=> %s (not %s))", ex.cur.guard, t), []string{ex.prop})
+			}
+		}
+	}
 	if b, ok := cc.Value.(*ssa.Builtin); ok {
 		ex.builtin(v, b, cc, instr)
 		return
